@@ -208,6 +208,18 @@ CHECKS = {
             'operand pairs; finite normal operands and normal exact results only.',
             'TLC model checking of a scaled algorithm model plus TLC evaluation of exact-rational error-bound predicates on recorded block outputs',
             'DESIGN.md section 4, C13'),
+    'C18': ('exploration',
+            'Layout.tla states what a correct RESULT of placing and routing a structural block is: one symbol per child and per port, '
+            'no two overlapping or sharing a grid cell; for every used wire the nets drawn for it with their pass-through / feedback '
+            'markers form one connected figure that touches the real driver pin and every real reader pin and no pin of another wire '
+            '(topologically, and geometrically: no routed polyline passes through a foreign pin position). Netlists: every netlist of '
+            'the TLC-enumerated MC_Edge family wrapped in a block with ports, the structural library blocks, seeded compositions, '
+            'layered netlists with long forward edges, accumulator-beside-bypass families. Schematic(obj, placeAndRoute=True) runs '
+            'under a 60 s watchdog; objs/nets/symbol_matrix/pin positions are projected to JSON and judged by TLC (Trace_Layout).',
+            'the 2400-line heuristic placer is not modelled (no TLA+ model of the algorithm): only recorded results are judged; '
+            'termination is a watchdog observation.',
+            'TLC evaluation of a layout result relation over recorded schematics of TLC-generated and library netlists',
+            'DESIGN.md section 4, C18'),
 }
 
 PENDING = {}
